@@ -153,7 +153,7 @@ PROPS["C09"] = _c09()
 # C18
 # ---------------------------------------------------------------------------------------------
 def _c18():
-    names = ['c18_udp_parse_dom_n0', 'c18_udp_parse_dom_n3', 'c18_udp_parse_dom_n4', 'c18_udp_parse_dom_n5', 'c18_udp_parse_dom_n7', 'c18_udp_parse_dom_n8', 'c18_udp_parse_dom_n10', 'c18_udp_parse_badatyp_n10', 'c18_udp_parse_badatyp0_n10', 'c18_udp_parse_v4_n9', 'c18_udp_parse_v4_n10', 'c18_udp_parse_v4_n12', 'c18_udp_parse_v6_n21', 'c18_udp_parse_v6_n22', 'c18_udp_parse_v6_n23', 'c18_udp_build_v4_p0', 'c18_udp_build_v4_p3', 'c18_udp_build_v6_p0', 'c18_udp_build_v6_p2', 'c18_v5req_v4_n0', 'c18_v5req_v4_n1', 'c18_v5req_v4_n3', 'c18_v5req_v4_n4', 'c18_v5req_v4_n7', 'c18_v5req_v4_n9', 'c18_v5req_v4_n10', 'c18_v5req_v4_n12', 'c18_v5req_v6_n21', 'c18_v5req_v6_n22', 'c18_v5req_dom0_n6', 'c18_v5req_dom0_n7', 'c18_v5req_dom2_n8', 'c18_v5req_dom2_n9', 'c18_v5req_dom2_n10', 'c18_v5req_dom1_n4', 'c18_v5req_dom1_n5', 'c18_v5req_badatyp_n10', 'c18_v5req_badatyp5_n10', 'c18_v5methods_n0', 'c18_v5methods_nm0_n1', 'c18_v5methods_nm2_n2', 'c18_v5methods_nm2_n3', 'c18_v5methods_nm2_n5', 'c18_v4req_ip_u0', 'c18_v4req_ip_u2', 'c18_v4req_ip_u2_unterminated', 'c18_v4req_ip_u0_unterminated', 'c18_v4req_ip_trunc_n5', 'c18_v4req_ip_trunc_n0', 'c18_v4req_4a_u1_d2', 'c18_v4req_4a_u0_d0', 'c18_v4req_4a_u0_d2_unterminated', 'c18_v4req_4a_u0_nodomain', 'c18_v5reply_v4', 'c18_v5reply_v6', 'c18_small_replies']
+    names = ['c18_udp_parse_dom_n0', 'c18_udp_parse_dom_n3', 'c18_udp_parse_dom_n4', 'c18_udp_parse_dom_n5', 'c18_udp_parse_dom_n7', 'c18_udp_parse_dom_n8', 'c18_udp_parse_dom_n10', 'c18_udp_parse_badatyp_n10', 'c18_udp_parse_badatyp0_n10', 'c18_udp_parse_v4_n9', 'c18_udp_parse_v4_n10', 'c18_udp_parse_v4_n12', 'c18_udp_parse_v6_n21', 'c18_udp_parse_v6_n22', 'c18_udp_parse_v6_n23', 'c18_udp_build_v4_p0', 'c18_udp_build_v4_p3', 'c18_udp_build_v6_p0', 'c18_udp_build_v6_p2', 'c18_v5req_v4_n0', 'c18_v5req_v4_n1', 'c18_v5req_v4_n3', 'c18_v5req_v4_n4', 'c18_v5req_v4_n7', 'c18_v5req_v4_n9', 'c18_v5req_v4_n10', 'c18_v5req_v4_n12', 'c18_v5req_v6_n21', 'c18_v5req_v6_n22', 'c18_v5req_dom0_n6', 'c18_v5req_dom0_n7', 'c18_v5req_dom2_n8', 'c18_v5req_dom2_n9', 'c18_v5req_dom2_n10', 'c18_v5req_dom1_n4', 'c18_v5req_dom1_n5', 'c18_v5req_badatyp_n10', 'c18_v5req_badatyp5_n10', 'c18_v5methods_n0', 'c18_v5methods_nm0_n1', 'c18_v5methods_nm2_n2', 'c18_v5methods_nm2_n3', 'c18_v5methods_nm2_n5', 'c18_v4req_ip_u0', 'c18_v4req_ip_u2', 'c18_v4req_ip_u2_unterminated', 'c18_v4req_ip_u0_unterminated', 'c18_v4req_ip_trunc_n5', 'c18_v4req_ip_trunc_n0', 'c18_v4req_4a_u1_d2', 'c18_v4req_4a_u0_d0', 'c18_v4req_4a_u0_d2_unterminated', 'c18_v4req_4a_u0_nodomain', 'c18_v4req_4a_u0_d1_unterminated', 'c18_v4req_ip_u1_unterminated', 'c18_v5reply_v4', 'c18_v5reply_v6', 'c18_small_replies']
     # the SOCKS5 request reader (nested async fns) and the longer SOCKS4 shapes need minutes:
     # thorough tier only
     slow = lambda n: n.startswith("c18_v5req_") or n in ("c18_v4req_4a_u1_d2", "c18_v4req_ip_u2_unterminated", "c18_v4req_4a_u0_d2_unterminated")
@@ -172,7 +172,8 @@ def _c18():
                 (r"fmt::num::imp::<impl std::fmt::Display for u8>", 5), (r"^std::fmt::write$", 10)]
     # beyond reach: the SOCKS5 request reader (three nested async fns + std address formatting) did not
     # finish symbolic execution within 3000 s / 20 GB per instance on this machine
-    off = lambda n: n.startswith("c18_v5req_")
+    # likewise the three longest SOCKS4/4a shapes (read_until twice + address formatting): out of memory at 20 GB / not finished in 3000 s
+    off = lambda n: n.startswith("c18_v5req_") or n in ("c18_v4req_4a_u1_d2", "c18_v4req_ip_u2_unterminated", "c18_v4req_4a_u0_d2_unterminated")
     hs = [H(n, tier="off" if off(n) else ("thorough" if (n in thorough_only or slow(n)) else "quick"), profiles=("dev", "rel"), timeout=(3000 if slow(n) else None), mem_gb=(20 if slow(n) else None), unwindset=io_loops if ("req" in n or "methods" in n) and "v4req" not in n else (),
             note="message octets symbolic except the constants named in the harness") for n in names]
     return dict(
@@ -181,7 +182,7 @@ def _c18():
         bounds=dict(message_len="concrete per harness: every truncation point around each field boundary (UDP header 0..12 / 21..23 octets; SOCKS5 request 0..12 / 21,22; SOCKS4 0..12)",
                     domain_len="0,1,2 (SOCKS5), 0,2 (SOCKS4a)", userid_len="0,1,2", payload="0..3 octets", ip_literals="address octets fixed (127.0.0.1, ::1, 10.0.0.200, 192.168.1.9) where the address is rendered as text; symbolic where it is copied (replies, UDP reply)",
                     everything_else="symbolic (commands, ports, reply codes, reserved octets, methods, payload)"),
-        outside=["NOT COVERED: penguin_socks::v5::read_request (SOCKS5 request reader): its instances (c18_v5req_*, written) do not finish symbolic execution within 3000 s / 20 GB each; the SOCKS5 method negotiation, both reply writers, the UDP relay header parser/builder and the SOCKS4/4a request reader are covered",
+        outside=["NOT COVERED: penguin_socks::v5::read_request (SOCKS5 request reader): its instances (c18_v5req_*, written) do not finish symbolic execution within 3000 s / 20 GB each, nor do the three longest SOCKS4/4a shapes (2-octet user id without terminator; 4a with a user id and a 2-octet domain; 4a with an unterminated 2-octet domain); the SOCKS5 method negotiation, both reply writers, the UDP relay header parser/builder and the SOCKS4/4a request reader are covered",
                  "domain names / user ids longer than 2 octets", "IP-literal formatting for arbitrary addresses (std fmt code)", "readers that return Pending (the in-memory stream is always ready; the *Ext helpers are the tokio shim)"],
         assumptions=["tokio shim AsyncReadExt/AsyncBufReadExt/AsyncWriteExt helpers follow tokio's documented behaviour (read_exact/read_uN fail with UnexpectedEof, read_until returns what it has at EOF)"],
         trusted=[SHIM_TRUST["bytes"], SHIM_TRUST["tokio"], "reference grammar of RFC 1928 / SOCKS4a in harness/ext/src/c18.rs"],
